@@ -299,6 +299,7 @@ func runC08(c *report.Ctx) {
 	// ---- (5) a wallet flagged for removal is outside the follower's ready set: no new rows while it is being deleted --
 	ruleReadySet(c, false, true)
 	ruleSelectionResetOnDelete(c)
+	ruleBlockRecordCount(c)
 }
 
 // isGlobalBucket: buckets without per-wallet data (frozen by reading txmgr/type.go and syncstore.go).
